@@ -1,3 +1,4 @@
+import Holpy.C07.TypeModel
 /-
 C07 — model of the precedence core of holpy's printer (syntax/pprint.py `get_ast_term` +
 `print_ast`) and of the term grammar of syntax/parser.py.  Import-free (linked into c07_model).
@@ -67,13 +68,10 @@ structure Ladder where
   levels : List Level
   /-- spellings of the binder alternatives of `atom` (`%`/`λ`, `!`/`∀`, …) -/
   binders : List (List Nat)
+  /-- symbols of the type syntax (for annotations `(t::T)`, `%x::T. t`) and the `::` terminal -/
+  ty : TySyms := { tick := 0, qtick := 0, arrowA := 0, arrowU := 0, comma := 0 }
+  dcolon : Nat := 0
   deriving Repr
-
-inductive Tok
-  | lp | rp | dot | kif | kthen | kelse
-  | sym (s : Nat)
-  | id (s : List Nat)
-  deriving DecidableEq, Repr, Inhabited
 
 inductive Skel
   | atom (s : List Nat)
@@ -82,6 +80,10 @@ inductive Skel
   | un (o : Nat) (a : Skel)
   | binder (b : Nat) (x : List Nat) (body : Skel)
   | ite (c a b : Skel)
+  /-- `(t::T)`: a term with a type annotation (the printer writes it around constants, numerals, `[]`, `∅`) -/
+  | ann (t : Skel) (ty : Ty)
+  /-- `%x::T. body`: a binder whose bound variable carries a type annotation -/
+  | binderT (b : Nat) (x : List Nat) (ty : Ty) (body : Skel)
   deriving DecidableEq, Repr, Inhabited
 
 /-! ### Printer -/
@@ -104,6 +106,8 @@ def Skel.cls : Skel → Cls
   | .un o _ => .un o
   | .binder _ _ _ => .opn
   | .ite _ _ _ => .opn
+  | .ann _ _ => .atom
+  | .binderT _ _ _ _ => .opn
 
 def Table.row (T : Table) (o : Nat) : OpRow := T.ops.getD o default
 
@@ -151,8 +155,6 @@ def brF (T : Table) (c : Cls) : Bool :=
 /-- bracket around the argument part of an application -/
 def brA (T : Table) (c : Cls) : Bool := (prioPair T c).1 ≤ 95
 
-def wrap (b : Bool) (ts : List Tok) : List Tok := if b then Tok.lp :: ts ++ [Tok.rp] else ts
-
 /-- the printer's row for the `b`-th binder alternative of the grammar: the row whose ascii spelling the grammar lists there -/
 def binderRow (T : Table) (L : Ladder) (b : Nat) : BinderRow :=
   (T.allBinders.find? (fun r => (L.binders.getD b []).contains r.ascii)).getD { funName := "", ascii := 1000000, unicode := 1000000, key := "" }
@@ -169,6 +171,8 @@ def printSkel (T : Table) (L : Ladder) (uni : Bool) : Skel → List Tok
   | .un o a => .sym (T.spell uni o) :: wrap (brU T o a.cls) (printSkel T L uni a)
   | .binder b x body => .sym (binderSpell T L uni b) :: .id x :: .dot :: printSkel T L uni body
   | .ite c a b => .kif :: printSkel T L uni c ++ .kthen :: printSkel T L uni a ++ .kelse :: printSkel T L uni b
+  | .ann t ty => .lp :: (printSkel T L uni t ++ .sym L.dcolon :: (printTy L.ty uni ty ++ [.rp]))
+  | .binderT b x ty body => .sym (binderSpell T L uni b) :: .id x :: .sym L.dcolon :: (printTy L.ty uni ty ++ .dot :: printSkel T L uni body)
 
 /-! ### Parser -/
 
@@ -195,6 +199,13 @@ def atomP (L : Ladder) (self : Nat → List Tok → PRes) : List Tok → PRes
   | .lp :: r =>
     match self 0 r with
     | some (t, .rp :: r') => some (t, r')
+    | some (t, .sym d :: r1) =>
+      -- "(" term "::" type ")"
+      if d = L.dcolon then
+        match parseTyAt L.ty (r1.length + 1) r1 with
+        | some (ty, .rp :: r2) => some (.ann t ty, r2)
+        | _ => none
+      else none
     | _ => none
   | .kif :: r =>
     match self 0 r with
@@ -213,6 +224,16 @@ def atomP (L : Ladder) (self : Nat → List Tok → PRes) : List Tok → PRes
       | some (body, r') => some (.binder b x body, r')
       | none => none
     | none => none
+  | .sym s :: .id x :: .sym d :: r =>
+    -- binder CNAME "::" type ". " term
+    if d = L.dcolon then
+      match L.binderIdx s, parseTyAt L.ty (r.length + 1) r with
+      | some b, some (ty, .dot :: r1) =>
+        match self 0 r1 with
+        | some (body, r') => some (.binderT b x ty body, r')
+        | none => none
+      | _, _ => none
+    else none
   | _ => none
 
 /-- rule `comb: comb atom | atom` after the first atom: left-nested application loop -/
@@ -402,7 +423,9 @@ abbrev LadderOK (T : Table) (L : Ladder) : Prop :=
       (binderSpell T L false b ∈ L.binders.getD b [] ∧ binderSpell T L true b ∈ L.binders.getD b []) ∧
       ∀ s ∈ L.binders.getD b [], L.binderIdx s = some b) ∧
   -- every binder row of operator.py / pprint.py is spelled the way one binder alternative of the grammar is
-  (∀ r ∈ T.allBinders, (L.binderIdx r.ascii).isSome = true ∧ L.binderIdx r.unicode = L.binderIdx r.ascii)
+  ((∀ r ∈ T.allBinders, (L.binderIdx r.ascii).isSome = true ∧ L.binderIdx r.unicode = L.binderIdx r.ascii) ∧
+   -- `::` is no operator symbol and no binder spelling; the type symbols are distinct
+   (L.binderIdx L.dcolon = none ∧ (∀ j < L.n, (L.at j).has L.dcolon = false) ∧ L.ty.ok))
 
 /-- every bracket the printer omits is one the grammar does not need; spellings agree -/
 abbrev TableConsistent (T : Table) (L : Ladder) : Prop :=
@@ -416,5 +439,7 @@ def Skel.WF (T : Table) (L : Ladder) : Skel → Prop
   | .un o a => o < T.ops.length ∧ (T.row o).arity = .unary ∧ a.WF T L
   | .binder b _ body => b < L.binders.length ∧ body.WF T L
   | .ite c a b => c.WF T L ∧ a.WF T L ∧ b.WF T L
+  | .ann t _ => t.WF T L
+  | .binderT b _ _ body => b < L.binders.length ∧ body.WF T L
 
 end Holpy.C07
